@@ -8,7 +8,7 @@ from gv.model import dbutil
 
 ID = "C06"
 RULE = ("database A holds one feature for every pair start<=end of the bin-boundary coordinate set (two seqids, three strands, two types, "
-        "all children of one root, all parents of one leaf), database B every interval over 1..6; every query interval start<=end of the "
+        "all children of one root, all parents of one leaf), database B every interval over 1..6, database T = A imported through a coordinate-moving transform; every query interval start<=end of the "
         "same set x completely_within x call form (kwargs, tuple, string, Feature, seqid omitted, one-sided, limit= of all_features / "
         "features_of_type / children / parents as tuple and string) x strand x featuretype is answered by the real code and by brute force. "
         "Non-trivial = the expected answer is neither empty nor everything")
@@ -46,7 +46,7 @@ FORMS = ["kwargs", "tuple", "string", "Feature", "noseqid", "start_only", "end_o
 
 def build(kind, tier, wd):
     """-> (db, list of feature dicts)"""
-    if kind == "A":
+    if kind in ("A", "T"):
         cs = coords(tier)
     else:
         cs = list(range(1, 7))
@@ -61,10 +61,22 @@ def build(kind, tier, wd):
         feats.append(dict(id="g%d" % j, seqid="c2", start=a, end=b, strand="+-."[j % 3], ft=("gene", "exon")[j % 2]))
     lines = ["c1\ts\troot\t1\t%d\t.\t+\t.\tID=R" % cs[-1]]
     for f in feats:
-        lines.append("%s\ts\t%s\t%d\t%d\t.\t%s\t.\tID=%s;Parent=R" % (f["seqid"], f["ft"], f["start"], f["end"], f["strand"], f["id"]))
+        if kind == "T":
+            # database T: every feature is parsed at a placeholder position and moved to its real
+            # coordinates by a transform, so the stored bin must follow the coordinates at storage time
+            lines.append("%s\ts\t%s\t1\t1\t.\t%s\t.\tID=%s;Parent=R;rs=%d;re=%d" % (f["seqid"], f["ft"], f["strand"], f["id"], f["start"], f["end"]))
+        else:
+            lines.append("%s\ts\t%s\t%d\t%d\t.\t%s\t.\tID=%s;Parent=R" % (f["seqid"], f["ft"], f["start"], f["end"], f["strand"], f["id"]))
     lines.append("c1\ts\tleaf\t1\t1\t.\t+\t.\tID=L;Parent=%s" % ",".join(f["id"] for f in feats))
     path = dbutil.write_text(wd, "in%s.gff" % kind, "\n".join(lines) + "\n")
-    db = gffutils.create_db(path, os.path.join(wd, "db%s.sqlite" % kind), verbose=False, force=True)
+
+    def move(f):
+        if "rs" in f.attributes:
+            f.start, f.end = int(f.attributes["rs"][0]), int(f.attributes["re"][0])
+        return f
+
+    kw = dict(transform=move) if kind == "T" else {}
+    db = gffutils.create_db(path, os.path.join(wd, "db%s.sqlite" % kind), verbose=False, force=True, **kw)
     return db, feats, cs
 
 
@@ -75,6 +87,9 @@ def shards(tier):
         for i in range(n):
             out.append(("A", form, i))
         out.append(("B", form, None))
+    for form in ("kwargs", "all_features", "children"):
+        for i in range(n):
+            out.append(("T", form, i))
     return out
 
 
@@ -104,7 +119,7 @@ def body(ch, ctx):
         os.makedirs(d, exist_ok=True)
         ctx.memo[key] = build(kind, ctx.tier, d)
     db, feats, cs = ctx.memo[key]
-    if kind == "A":
+    if kind in ("A", "T"):
         s = cs[i0]
     else:
         s = ch.choose("start", cs)
@@ -188,7 +203,7 @@ class _FE(dict):
 
     def __missing__(self, key):
         kind, tier = key
-        cs = coords(tier) if kind == "A" else list(range(1, 7))
+        cs = coords(tier) if kind in ("A", "T") else list(range(1, 7))
         d, i = {}, 0
         for a in cs:
             for b in cs:
